@@ -15,6 +15,7 @@ Definition wpc_eqb (a b : wpc) : bool :=
 Definition cx_eqb (a b : cx) : bool :=
   mpc_eqb (mp a) (mp b) && wpc_eqb (wp a) (wp b) && Bool.eqb (cancelled a) (cancelled b) &&
   Bool.eqb (done_closed a) (done_closed b) && Bool.eqb (dl_past a) (dl_past b) && Bool.eqb (ready a) (ready b) && Bool.eqb (half a) (half b) &&
+  Bool.eqb (failing a) (failing b) && Bool.eqb (op_err a) (op_err b) &&
   (op_n a =? op_n b) && Bool.eqb (op_timeout a) (op_timeout b) && Bool.eqb (ret_ctx_err a) (ret_ctx_err b) &&
   (ret_n a =? ret_n b).
 
@@ -131,7 +132,7 @@ Proof. vm_compute. reflexivity. Qed.
 
 (* (d) progress: events of the two goroutines (not of the environment) *)
 Definition thread_events : list cev :=
-  [EM_lock; EM_check; EM_add; EM_go; EM_op_data; EM_op_timeout; EM_op_partial; EM_close_done; EM_wait_return;
+  [EM_lock; EM_check; EM_add; EM_go; EM_op_data; EM_op_data0; EM_op_err; EM_op_timeout; EM_op_partial; EM_close_done; EM_wait_return;
    EW_ctx; EW_done; EW_set_past; EW_recv_done; EW_restore].
 
 Definition can_move (s : cx) : bool :=
@@ -142,7 +143,7 @@ Definition can_move (s : cx) : bool :=
    itself would block *)
 Definition stuck_ok (s : cx) : bool :=
   implb' (negb (can_move s))
-    (is_ret s || (match mp s with MOp => true | _ => false end && negb (ready s) && negb (cancelled s))).
+    (is_ret s || (match mp s with MOp => true | _ => false end && negb (ready s) && negb (cancelled s) && negb (failing s))).
 
 Lemma stuck_ok_all : forallb stuck_ok reach = true.
 Proof. vm_compute. reflexivity. Qed.
@@ -154,7 +155,7 @@ Definition rank (s : cx) : Z :=
 
 Definition rank_ok (s : cx) : bool :=
   forallb (fun e => match cxstep s e with Some s' => rank s' <? rank s | None => true end) thread_events &&
-  forallb (fun e => match cxstep s e with Some s' => rank s' <=? rank s | None => true end) [EN_cancel; EN_ready; EN_half].
+  forallb (fun e => match cxstep s e with Some s' => rank s' <=? rank s | None => true end) [EN_cancel; EN_ready; EN_half; EN_fail].
 
 Lemma rank_ok_all : forallb rank_ok reach = true.
 Proof. vm_compute. reflexivity. Qed.
